@@ -8,6 +8,8 @@ import numpy as np
 from . import genomes as G
 
 STEMS = ['sampleA', 'iso_2', 'run-3', 'X4', 'my sample5', 's6_contigs', 'q7', 'Genome8']
+# names without any extension whose tail merely looks like one: the label is the name itself
+BARE_STEMS = ['MRSA_alfa', 'plate3_bigz', 'run12_ffn', 'ctg_fna', 'wgs_fasta']
 
 
 class QueryPool:
@@ -37,12 +39,32 @@ def build(ctx, rng, refworld, n, subdir='queries', int_ids=False, name_offset=0)
 			contigs = G.make_genome(rng, rng.randint(1, 3), 300, 2000)                         # unrelated
 		stem = stems[i % len(stems)] + (f'_{i // len(stems)}' if i >= len(stems) else '')
 		ext = rng.choice(G.FASTA_EXTS)
+		if rng.random() < 0.15:
+			stem, ext = BARE_STEMS[i % len(BARE_STEMS)] + (f'{i}' if i >= len(BARE_STEMS) else ''), ''
 		deco = G.decorate(rng, contigs, lower_frac=rng.choice([0, 0, .3]), n_frac=0)
 		kw = dict(width=rng.choice([60, 70, 80, 13]), crlf=rng.random() < .15, final_newline=rng.random() < .85)
 		plain = G.write_fasta(os.path.join(root, 'plain', stem + ext), deco, gz=False, **kw)
 		gz = G.write_fasta(os.path.join(root, 'packed', 'deep', stem + ext + '.gz'), deco, gz=True, **kw)
-		pool.genomes.append(dict(stem=stem, ext=ext, contigs=contigs, plain=plain, gz=gz,
+		pool.genomes.append(dict(stem=stem, ext=ext, contigs=contigs, plain=plain, gz=gz, deco=deco, kw=kw,
 		                         sig=np.asarray(calc_signature(kspec, contigs))))
+	# homonyms: a file in another directory that carries genome i's content under genome j's name, and a
+	# decoy working directory that mirrors the relative layout of the pool with the contents rotated
+	# (a command given --ldir / absolute paths must never pick these up)
+	pool.decoy_cwd = os.path.join(root, 'cwd')
+	os.makedirs(pool.decoy_cwd, exist_ok=True)
+	for i, g in enumerate(pool.genomes):
+		j = (i + 1) % n
+		other = pool.genomes[j]
+		g['alias'] = None
+		if n > 1:
+			g['alias'] = G.write_fasta(os.path.join(root, 'aliases', f'd{i}', other['stem'] + other['ext']), g['deco'], gz=False, **g['kw'])
+			for rel, gz in ((os.path.relpath(other['plain'], root), False), (os.path.relpath(other['gz'], root), True)):
+				G.write_fasta(os.path.join(pool.decoy_cwd, rel), g['deco'], gz=gz, **g['kw'])
+	# a file that fails in mid-parse: gzip member cut before its trailer, several contigs so that records are
+	# delivered before the failure
+	bc = G.make_genome(rng, 3, 400, 900)
+	bdata = G.gz_bytes(G.fasta_bytes(bc))
+	pool.broken = G.write_file(os.path.join(root, 'broken', 'cut.fasta.gz'), bdata[:len(bdata) * 3 // 4])
 	if int_ids:
 		ids = np.array([100 + 3 * i for i in range(n)], dtype=np.int64)
 	else:
